@@ -121,4 +121,5 @@ def check(case):
 
 
 def shrink(case):
+    yield from common.shrink_faults(case, ("main",))
     yield from common.shrink_tasks(case, {"main"})
